@@ -215,6 +215,18 @@ fn direction_case(ctx: &mut Ctx, k: &Case, d: &Vector3<f64>, region: &str) {
   // slow ≥ fast.  (NaN / zero values are already reported by C02.value)
   if no_.is_finite() && ne_.is_finite() && no_ > 0.0 && ne_ > 0.0 {
     ctx.s("C02.order", no_ >= ne_, "index_along/order", &det);
+    // the two values are the two solutions of Fresnel's equation (x = 1/n²: x² − Bx + C = 0 with
+    // B = Σ sᵢ²(b_j+b_k), C = Σ sᵢ² b_j b_k for the direction rotated into the crystal frame): Vieta
+    {
+      let s = k.cs.to_crystal_frame(Unit::new_unchecked(*d));
+      let b = Vector3::new(1.0 / (k.n.x * k.n.x), 1.0 / (k.n.y * k.n.y), 1.0 / (k.n.z * k.n.z));
+      let (u, v, w) = (s.x * s.x, s.y * s.y, s.z * s.z);
+      let bb = u * (b.y + b.z) + v * (b.x + b.z) + w * (b.x + b.y);
+      let cc = u * b.y * b.z + v * b.x * b.z + w * b.x * b.y;
+      let (xo, xe) = (1.0 / (no_ * no_), 1.0 / (ne_ * ne_));
+      let ok = (xo + xe - bb).abs() <= REL_SLACK * bb && (xo * xe - cc).abs() <= REL_SLACK * cc;
+      ctx.s("C02.fresnel", ok, "index_along/fresnel-solutions", &det);
+    }
     // uniaxial law
     if is_uniaxial(k.c) {
       let s = k.cs.to_crystal_frame(Unit::new_unchecked(*d));
